@@ -87,8 +87,8 @@ Proof.
   destruct (exec_image_erases o h w (fst (rclear r)) scr Hs Hall) as (Hs' & Hg & Hp).
   rewrite rclear_state, (hi_h _ _ _ _ _ HI), (hi_w _ _ _ _ _ HI).
   constructor; simpl; auto.
-  - apply HI.
-  - apply HI.
+  - apply gdims_gmake.
+  - fold (blank_surface h w). rewrite blank_resolved. apply good_blank. auto.
   - apply good_blank. auto.
   - exists MDamaged. split; auto.
   - intros i rr cc. rewrite Hp. split.
@@ -119,7 +119,7 @@ Definition good_iters (o : oracle) (h w : nat) (its : list iter) : Prop :=
 
 Lemma frame_chunk : forall o h w r v cc, oracle_ok o ->
   HInv o h w r v ->
-  let c := (cc ++ [CSync true] ++ fst (frame o r) ++ [CSync false], front r) in
+  let c := (cc ++ [CSync true] ++ fst (frame o r) ++ [CSync false], Some (front r)) in
   forall v0, exec_list o v0 cc = v ->
   snd (deliver o h w v0 c) = true
   /\ HInv o h w (snd (frame o r)) (fst (deliver o h w v0 c)).
@@ -156,73 +156,80 @@ Proof.
   { unfold q1, n. rewrite skipn_length, (li_len _ _ _ _ _ _ _ _ HL). reflexivity. }
   rewrite Hnp in *.
   pose proof (li_sync _ _ _ _ _ _ _ _ HL) as HI. rewrite <- HV in HI.
-  destruct (hinv_draw o h w r _ (it_draw it) HI Hg) as [HI0 Hf0].
-  set (r0 := rdraw r (it_draw it)) in *.
-  assert (Hb0 : back r0 = gmap (resolve o) last).
-  { unfold r0, rdraw. destruct (grid_dims (it_draw it) (rh r) (rw r)); simpl; apply HL. }
+  set (fp := match it_pending it with Some k => k | None => length q1 end) in *.
+  set (drop := terminal_frames_drop <? fp) in *.
+  set (cc := if drop then fst (rclear r) else []) in *.
+  set (r1 := if drop then snd (rclear r) else r) in *.
+  set (q2 := if drop then firstn (it_keep it) q1 else q1) in *.
+  set (last1 := if drop then gmake h w cell_default else last) in *.
+  set (np2 := if drop then Nat.min (it_keep it) (length q1) else length q1) in *.
+  set (stl := if drop then stale_after_drop o h w scr1 q2 last else false) in *.
+  (* after the (possible) drop and clear *)
+  assert (Hstl : stl = false).
+  { destruct (it_action it);
+      match type of Hst with snd (let '(_, _) := ?X in _) = false => destruct X end;
+      cbn [snd] in Hst; apply orb_false_iff in Hst; tauto. }
+  assert (Hphase : snd (deliver_all o h w scr1 q2) = true
+                   /\ np2 = length q2
+                   /\ HInv o h w r1 (exec_list o (fst (deliver_all o h w scr1 q2)) cc)
+                   /\ back r1 = gmap (resolve o) last1).
+  { unfold stl, q2, np2, r1, cc, last1 in *. destruct drop.
+    - assert (Hc2 : snd (deliver_all o h w scr1 (firstn (it_keep it) q1)) = true).
+      { pose proof (deliver_all_split o h w (it_keep it) q1 scr1) as H.
+        rewrite H in Hchain1. cbn [snd] in Hchain1. apply andb_true_iff in Hchain1. tauto. }
+      set (v' := fst (deliver_all o h w scr1 (firstn (it_keep it) q1))) in *.
+      assert (Hsv : scr_ok v' h w) by (apply deliver_all_scr_ok; auto).
+      assert (Hpl : forall i rr cc0, In (i, rr, cc0) (places v') -> img_cell (back r) i rr cc0).
+      { intros i rr cc0 Hin. unfold stale_after_drop in Hstl. apply negb_false_iff in Hstl.
+        rewrite forallb_forall in Hstl. fold v' in Hstl. rewrite (li_back _ _ _ _ _ _ _ _ HL).
+        apply is_img_at_cell. apply Hstl. exact Hin. }
+      split; [exact Hc2|]. split; [rewrite firstn_length; reflexivity|]. split.
+      + exact (hinv_clear_any o h w r _ v' Hok HI Hsv Hpl).
+      + rewrite rclear_state. cbn [rnew back]. rewrite (hi_h _ _ _ _ _ HI), (hi_w _ _ _ _ _ HI).
+        fold (blank_surface h w). rewrite blank_resolved. reflexivity.
+    - split; [exact Hchain1|]. split; [reflexivity|]. split.
+      + rewrite exec_list_nil. exact HI.
+      + apply HL. }
+  destruct Hphase as (Hc2 & Hnp2 & HI1 & Hb1).
+  set (v0 := fst (deliver_all o h w scr1 q2)) in *.
+  destruct (hinv_draw o h w r1 _ (it_draw it) HI1 Hg) as [HI2 Hf2].
+  set (r2 := rdraw r1 (it_draw it)) in *.
+  assert (Hb2 : back r2 = gmap (resolve o) last1).
+  { unfold r2, rdraw. destruct (grid_dims (it_draw it) (rh r1) (rw r1)); simpl; exact Hb1. }
   destruct (it_action it).
   - (* a frame *)
-    set (fp := match it_pending it with Some k => k | None => length q1 end) in *.
-    destruct (terminal_frames_drop <? fp) eqn:Edrop.
-    + (* frames_drop; clear; frame *)
-      set (q2 := firstn (it_keep it) q1) in *.
-      destruct (loop_spec o h w scr1 (q2 ++ [(fst (rclear r0) ++ [CSync true] ++ fst (frame o (snd (rclear r0))) ++ [CSync false], it_draw it)])
-                          (it_draw it) its
-                          (loop_model o (snd (frame o (snd (rclear r0)))) (S (Nat.min (it_keep it) (length q1))) its))
-        as [ok st] eqn:Erest.
-      cbn [fst snd] in *. apply orb_false_iff in Hst. destruct Hst as [Hstale Hst].
-      assert (Hc2 : snd (deliver_all o h w scr1 q2) = true).
-      { pose proof (deliver_all_split o h w (it_keep it) q1 scr1) as H. fold q2 in H.
-        rewrite H in Hchain1. cbn [snd] in Hchain1. apply andb_true_iff in Hchain1. tauto. }
-      set (v' := fst (deliver_all o h w scr1 q2)) in *.
-      assert (Hsv : scr_ok v' h w) by (apply deliver_all_scr_ok; auto).
-      assert (Hpl : forall i rr cc, In (i, rr, cc) (places v') -> img_cell (back r0) i rr cc).
-      { intros i rr cc Hin. unfold stale_after_drop in Hstale. apply negb_false_iff in Hstale.
-        rewrite forallb_forall in Hstale. fold v' in Hstale. rewrite Hb0.
-        apply is_img_at_cell. apply Hstale. exact Hin. }
-      pose proof (hinv_clear_any o h w r0 _ v' Hok HI0 Hsv Hpl) as HIc.
-      assert (Hfc : front (snd (rclear r0)) = it_draw it) by (rewrite rclear_state; exact Hf0).
-      destruct (frame_chunk o h w (snd (rclear r0)) _ (fst (rclear r0)) Hok HIc v' eq_refl) as [Hck HIn].
-      rewrite Hfc in Hck, HIn.
-      cbn [andb].
-      replace ok with (fst (ok, st)) by reflexivity. rewrite <- Erest.
-      apply IH; auto.
-      * constructor.
-        -- exact Hs1.
-        -- rewrite app_length. unfold q2. rewrite firstn_length. simpl. lia.
-        -- rewrite deliver_all_app. cbn [snd]. fold v'. rewrite Hc2. cbn [andb deliver_all].
-           destruct (deliver o h w v' _) as [s2 k2] eqn:Ed. cbn [snd] in *. rewrite Hck. reflexivity.
-        -- rewrite deliver_all_app. cbn [fst]. fold v'. cbn [deliver_all].
-           destruct (deliver o h w v' _) as [s2 k2] eqn:Ed. cbn [fst] in *. exact HIn.
-        -- destruct (hinv_frame o h w (snd (rclear r0)) _ Hok HIc) as (_ & _ & Hbk & _). rewrite Hbk, Hfc. reflexivity.
-      * rewrite Erest. exact Hst.
-    + (* a plain frame *)
-      destruct (loop_spec o h w scr1 (q1 ++ [([] ++ [CSync true] ++ fst (frame o r0) ++ [CSync false], it_draw it)])
-                          (it_draw it) its (loop_model o (snd (frame o r0)) (S (length q1)) its))
-        as [ok st] eqn:Erest.
-      cbn [fst snd orb] in *.
-      set (v := fst (deliver_all o h w scr1 q1)) in *.
-      destruct (frame_chunk o h w r0 v [] Hok HI0 v eq_refl) as [Hck HIn].
-      rewrite Hf0 in Hck, HIn.
-      cbn [andb].
-      replace ok with (fst (ok, st)) by reflexivity. rewrite <- Erest.
-      apply IH; auto.
-      * constructor.
-        -- exact Hs1.
-        -- rewrite app_length. simpl. lia.
-        -- rewrite deliver_all_app. cbn [snd]. fold v. rewrite Hchain1. cbn [andb deliver_all].
-           destruct (deliver o h w v _) as [s2 k2] eqn:Ed. cbn [snd] in *. rewrite Hck. reflexivity.
-        -- rewrite deliver_all_app. cbn [fst]. fold v. cbn [deliver_all].
-           destruct (deliver o h w v _) as [s2 k2] eqn:Ed. cbn [fst] in *. exact HIn.
-        -- destruct (hinv_frame o h w r0 v Hok HI0) as (_ & _ & Hbk & _). rewrite Hbk, Hf0. reflexivity.
-      * rewrite Erest. exact Hst.
-  - (* WaitNoFrame: the drawing is dropped *)
-    destruct (loop_spec o h w scr1 q1 last its (loop_model o (rskip r0) (length q1) its)) as [ok st] eqn:Erest.
-    cbn [fst snd] in *. cbn [andb negb].
+    destruct (frame_chunk o h w r2 _ cc Hok HI2 v0 eq_refl) as [Hck HIn]. rewrite Hf2 in Hck, HIn.
+    match type of Hst with snd (let '(_, _) := ?X in _) = false => destruct X as [ok st] eqn:Erest end.
+    cbn [fst snd] in *. cbn [andb].
     replace ok with (fst (ok, st)) by reflexivity. rewrite <- Erest.
+    fold q2. fold q2 in Erest.
     apply IH; auto.
-    + destruct (hinv_skip o h w r0 _ Hok HI0) as [HIs _]. constructor; auto.
-    + rewrite Erest. exact Hst.
+    + constructor.
+      * exact Hs1.
+      * rewrite app_length. cbn [length]. lia.
+      * rewrite deliver_all_app. cbn [snd]. fold v0. rewrite Hc2. cbn [andb deliver_all].
+        destruct (deliver o h w v0 _) as [s2 k2] eqn:Ed. cbn [snd] in *. rewrite Hck. reflexivity.
+      * rewrite deliver_all_app. cbn [fst]. fold v0. cbn [deliver_all].
+        destruct (deliver o h w v0 _) as [s2 k2] eqn:Ed. cbn [fst] in *. exact HIn.
+      * destruct (hinv_frame o h w r2 _ Hok HI2) as (_ & _ & Hbk & _). rewrite Hbk, Hf2. reflexivity.
+    + rewrite Erest. apply orb_false_iff in Hst. tauto.
+  - (* WaitNoFrame: the drawing is dropped; the chunk holds at most the commands of clear() *)
+    destruct (hinv_skip o h w r2 _ Hok HI2) as [HIs _].
+    match type of Hst with snd (let '(_, _) := ?X in _) = false => destruct X as [ok st] eqn:Erest end.
+    cbn [fst snd] in *. cbn [andb].
+    replace ok with (fst (ok, st)) by reflexivity. rewrite <- Erest.
+    fold q2. fold q2 in Erest. fold last1. fold last1 in Erest.
+    apply IH; auto.
+    + destruct cc as [|c0 cc'] eqn:Ecc; cbn [is_nil] in *.
+      * rewrite exec_list_nil in HIs. constructor; auto.
+      * constructor.
+        -- exact Hs1.
+        -- rewrite app_length. cbn [length]. lia.
+        -- rewrite deliver_all_app. cbn [snd]. fold v0. rewrite Hc2. cbn [andb deliver_all].
+           unfold deliver. cbn [fst snd]. rewrite !andb_true_r. apply negb_true_iff. apply HIs.
+        -- rewrite deliver_all_app. cbn [fst]. fold v0. cbn [deliver_all]. unfold deliver. cbn [fst snd]. exact HIs.
+        -- unfold rskip. cbn [back]. exact Hb2.
+    + rewrite Erest. apply orb_false_iff in Hst. tauto.
 Qed.
 
 Lemma linv_init : forall o h w, oracle_ok o ->
